@@ -54,8 +54,10 @@ AutoSpent(o, su) == IF Has(o, "spent_all") THEN [i \in 1..Len(o.spent_all) |-> [
                     ELSE DefaultSpent(AutoTx(o), AutoFunding(o), su)
 SigverNum == [BASE |-> 0, WITNESS_V0 |-> 1, TAPROOT |-> 2, TAPSCRIPT |-> 3]
 
+DsRefused(o) == Has(o, "dsrefused")
 MkSession(o) ==
-    IF IsAuto(o) THEN (LET su == AutoSetup(o) IN IF su.refused THEN [refused |-> TRUE, why |-> su.why]
+    IF DsRefused(o) THEN [refused |-> TRUE, why |-> "dataset file missing"]
+    ELSE IF IsAuto(o) THEN (LET su == AutoSetup(o) IN IF su.refused THEN [refused |-> TRUE, why |-> su.why]
                                                  ELSE LET base == SessionOf(AutoTx(o), AutoFunding(o), su, AutoFlags(o), AutoSpent(o, su))
                                                       \* --pretend-valid on a spend: the listed pairs (the verdict is then not comparable with validation)
                                                       IN [base EXCEPT !.ctx.pretend = PretendOf(o)])
@@ -99,13 +101,14 @@ Bump(f) == [stats EXCEPT ![f] = @ + 1]
 Init == /\ l = 1 /\ sess = <<>> /\ cur = [id |-> "none", cmp |-> <<>>] /\ mode = "idle" /\ divs = <<>> /\ cov = {}
         /\ stats = [execs |-> 0, events |-> 0, unspec |-> 0, refused |-> 0, failed |-> 0, finished |-> 0, skipped |-> 0]
 
-DoOpen(ev) ==
+DoOpen(ev0) ==
     \* the initial session is kept with the Open event (listings and views are defined from it; recomputing a spend's set-up for every
     \* printed listing dominated the validation time)
-    /\ LET s0 == MkSession(ev)
+    /\ LET ev == DatasetExpand(ev0)
+           s0 == MkSession(ev)
            lst == IF Has(ev, "repl") /\ "ctx" \in DOMAIN s0 THEN ExpectedListing(s0) ELSE <<>>
        IN cur' = (ev @@ [s0 |-> s0, listing0 |-> lst]) /\ sess' = s0
-    /\ mode' = IF Has(ev, "cli") \/ Has(ev, "repl") THEN "run" ELSE "await"
+    /\ mode' = IF Has(ev0, "cli") \/ Has(ev0, "repl") THEN "run" ELSE "await"
     /\ stats' = Bump("execs") /\ UNCHANGED <<divs, cov>>
 
 \* Opened / Refused must agree with the admissibility rule of the domain (C01) and the size rule (C10)
@@ -300,7 +303,7 @@ DoRun(ev) ==
     ELSE IF ev.e = "Run" THEN Judge(ev, Continue(sess), "run", TRUE)
     ELSE IF ev.e = "CliRun" THEN
         \* one non-interactive run of the real binary: exit status, terminating signal, stdout lines, stderr text
-        LET refused == IF IsAuto(cur) THEN AutoSetup(cur).refused ELSE
+        LET refused == IF DsRefused(cur) THEN TRUE ELSE IF IsAuto(cur) THEN AutoSetup(cur).refused ELSE
                        \/ ~Admissible(sess.ctx.script, RealLimits.elem)
                        \/ (sess.ctx.sigver \in {"BASE", "WITNESS_V0"} /\ Len(sess.ctx.script) > RealLimits.script)
                        \/ (Has(cur, "fmods") /\ ~ModifyFlags(StrToCodes(cur.fmods))[1])
@@ -309,7 +312,7 @@ DoRun(ev) ==
             expOut == CliOutcome(refused, exp)
             obsOut == [code |-> ev.code, sig |-> ev.sig, stdout |-> IF ev.code = 0 THEN ev.stdout ELSE <<>>]
             errOK == (expOut.code = 1 /\ ~refused /\ "errtext" \in SetOf(cur.cmp)) => ErrTextMatches(exp.vm.err, ev.err)
-        IN IF (~refused /\ exp.vm.status = "unspec") \/ (IsAuto(cur) /\ refused /\ AutoSetup(cur).soft)
+        IN IF (~refused /\ exp.vm.status = "unspec") \/ (~DsRefused(cur) /\ IsAuto(cur) /\ refused /\ AutoSetup(cur).soft)
            THEN /\ mode' = "skip" /\ stats' = Bump("unspec") /\ UNCHANGED <<divs, cov, sess, cur>>
            ELSE IF [code |-> expOut.code, sig |-> 0, stdout |-> expOut.stdout] = obsOut /\ errOK
                 THEN /\ mode' = "skip" /\ cov' = cov \cup {<<"cli", IF refused THEN "refused" ELSE exp.vm.err>>}
